@@ -16,6 +16,9 @@ args = sys.argv[1:]
 J = 4
 if "-j" in args:
     i = args.index("-j"); J = int(args[i + 1]); del args[i:i + 2]
+if not args or args[0] not in ("seeds", "benign"):
+    print(__doc__)
+    sys.exit(0 if args and args[0] in ("-h", "--help") else 2)
 mode, ids = args[0], args[1:]
 claimed = json.load(open(os.path.join(V, "tools", "claimed.json")))
 ROOT = "/tmp/verif-sweep"
